@@ -368,7 +368,7 @@ Proof.
       destruct (get_session_sess_fwd sv0 _ s ssn Hsess H0) as [ss' [H1 [H2 _]]]. eauto. }
     split.
     + apply finish_winv.
-      * now apply (attach_inv fx guard_on).
+      * now apply attach_inv.
       * now apply settled_attach.
       * intros c Hc. apply in_app_or in Hc as [Hc|[Hc|[]]]; [now apply Hmok|subst c; constructor].
       * intros c Hc. apply in_app_or in Hc as [Hc|[Hc|[]]].
@@ -384,6 +384,14 @@ Proof.
         now apply attach_J_new.
 Qed.
 
+Lemma filter_deliver : forall sv s (l : list client),
+  filter (fun x => negb (N.eqb (c_id x) s)) (map (deliver sv) l)
+  = map (deliver sv) (filter (fun x => negb (N.eqb (c_id x) s)) l).
+Proof.
+  intros sv s. induction l as [|c l IH]; cbn [map filter]; auto. rewrite deliver_id.
+  destruct (negb (N.eqb (c_id c) s)); cbn [map]; now rewrite IH.
+Qed.
+
 Lemma world_detach : forall B w s o, small B -> winv B w -> wJ w o ->
   winv B (world_step fx w (EDetach s)) /\ wJ (world_step fx w (EDetach s)) o.
 Proof.
@@ -391,11 +399,7 @@ Proof.
   pose proof (quiet_settled _ Hq) as Hset0. pose proof (quiet_pend_ok _ Hset0) as Hpo0.
   unfold world_step. cbn [step].
   set (sv1 := detach fx (w_srv w) s).
-  assert (Hfm : filter (fun x => negb (N.eqb (c_id x) s)) (map (deliver sv1) (w_clients w))
-                = map (deliver sv1) (filter (fun x => negb (N.eqb (c_id x) s)) (w_clients w))).
-  { induction (w_clients w) as [|c l IH]; cbn; auto. rewrite deliver_id.
-    destruct (negb (N.eqb (c_id c) s)); cbn; now rewrite IH. }
-  rewrite Hfm. split.
+  rewrite filter_deliver. split.
   - apply finish_winv.
     + now apply (detach_inv fx guard_on).
     + now apply settled_detach.
@@ -408,7 +412,153 @@ Proof.
     intros c Hc Hid. apply filter_In in Hc as [Hc Hne]. apply negb_true_iff, N.eqb_neq in Hne. rewrite Hid in Hne.
     destruct (Hhas c Hc) as [ss [Hss _]]. rewrite Hid in Hss.
     split; [destruct (detach_sessions_fwd (w_srv w) s o ss Hset0 Hne Hss) as [ss' [H1 _]]; eauto|].
-    apply (detach_J fx guard_on (c_mirror c) B); auto.
+    apply (detach_J fx (c_mirror c) B); auto.
+Qed.
+
+
+Lemma snd_client_unsub : forall m subs, snd (client_cmd m (CUnsubscribe subs)) = true.
+Proof. reflexivity. Qed.
+
+Lemma world_cmd : forall B w b c0 o, small (B + cmd_budget c0) -> winv B w -> wJ w o ->
+  ev_ok (ECmd b c0) -> ev_clean o (ECmd b c0) ->
+  winv (B + cmd_budget c0) (world_step fx w (ECmd b c0)) /\ wJ (world_step fx w (ECmd b c0)) o.
+Proof.
+  intros B w b c0 o HB [I Hq Hhas Hmok] HJ [Hloud Hdepth] Hclean. cbn [ev_clean] in Hclean.
+  pose proof (quiet_settled _ Hq) as Hset0. pose proof (quiet_pend_ok _ Hset0) as Hpo0.
+  unfold world_step. cbn [step].
+  destruct (get_session (w_srv w) b) as [bs|] eqn:Hb.
+  2:{ split.
+      - apply finish_winv; auto. apply (inv_weaken B); auto. lia.
+      - apply finish_wJ; auto. intros c Hc Hid. split; [|now apply HJ].
+        destruct (Hhas c Hc) as [ss [Hss _]]. rewrite Hid in Hss. eauto. }
+  set (hd := handle fx 0 (w_srv w) b c0).
+  destruct (handle_track fx c0 0 (w_srv w) b Hpo0) as [Hpoh Htr]; [cbn [Nat.add]; exact Hdepth|]. fold hd in Hpoh, Htr.
+  set (sv1 := push_all hd).
+  assert (I1 : inv (B + cmd_budget c0) sv1).
+  { eapply inv_same_core; [apply push_all_core|]. now apply handle_inv. }
+  assert (Hset1 : settled sv1) by (now apply settled_push_all).
+  set (upd := fun x : client => if N.eqb (c_id x) b then mkClient (c_id x) (c_mirror x) (fst (client_cmd (c_subs x) c0)) else x).
+  assert (Hupd_id : forall x, c_id (upd x) = c_id x) by (intros x; unfold upd; destruct (N.eqb (c_id x) b); reflexivity).
+  assert (Hupd_mir : forall x, c_mirror (upd x) = c_mirror x) by (intros x; unfold upd; destruct (N.eqb (c_id x) b); reflexivity).
+  (* every client's record of its subscriptions is still the server's *)
+  assert (Hhas1 : forall c, In c (w_clients w) ->
+            exists ss1, get_session sv1 (c_id c) = Some ss1 /\ c_subs (upd c) = s_subs ss1).
+  { intros c Hc. destruct (Hhas c Hc) as [ss [Hss Hsub]].
+    destruct (Htr (c_id c) ss Hss) as [ssh [Hssh [_ Hsubh]]].
+    destruct (get_session_sess_fwd hd sv1 (c_id c) ssh (same_core_sess _ _ (push_all_core hd)) Hssh) as [ss1 [Hss1 [Hsub1 _]]].
+    exists ss1. split; [auto|]. rewrite Hsub1, Hsubh. unfold upd. rewrite (N.eqb_sym b (c_id c)).
+    destruct (N.eqb (c_id c) b); cbn [c_subs]; congruence. }
+  assert (HW1 : winv (B + cmd_budget c0)
+                  (mkWorld (clear_outs sv1) (map (deliver sv1) (map upd (w_clients w)))
+                           (map (fun ss => (s_id ss, s_out ss)) (sv_sessions sv1)))).
+  { apply finish_winv; auto.
+    - intros c' Hc'. apply in_map_iff in Hc' as [c [H1 H2]]. subst c'. rewrite Hupd_mir. now apply Hmok.
+    - intros c' Hc'. apply in_map_iff in Hc' as [c [H1 H2]]. subst c'. rewrite Hupd_id. now apply Hhas1. }
+  (* J for the observer's clients, before any pruning, whenever the command is not the observer's unsubscribe *)
+  assert (HJ1 : (b = o -> cmd_plain c0 = true) -> forall c, In c (w_clients w) -> c_id c = o ->
+            (exists ss, get_session sv1 o = Some ss) /\ J (c_mirror c) sv1 o).
+  { intros Hpl c Hc Hid. destruct (Hhas1 c Hc) as [ss1 [Hss1 _]]. rewrite Hid in Hss1. split; [eauto|].
+    apply J_push_all. apply (handle_J fx guard_on overlap_on push_on (c_mirror c) o c0 0 (w_srv w) b B); auto.
+    intros E. destruct (Hclean E) as [Hs _]. split; auto. }
+  destruct (snd (client_cmd empty_matcher c0)) eqn:Hflag.
+  - (* some unsubscribe in the command: its sender prunes *)
+    set (pr := fun x : client => if N.eqb (c_id x) b then prune x else x).
+    assert (Hpr_id : forall x, c_id (pr x) = c_id x) by (intros x; unfold pr; destruct (N.eqb (c_id x) b); reflexivity).
+    split.
+    + destruct HW1 as [W1 W2 W3 W4]. constructor; cbn [w_srv w_clients] in *; auto.
+      * intros c' Hc'. apply in_map_iff in Hc' as [c [H1 H2]]. subst c'. rewrite Hpr_id.
+        destruct (W3 c H2) as [ss [Hss Hsub]]. exists ss. split; auto.
+        unfold pr. destruct (N.eqb (c_id c) b); auto.
+      * intros c' Hc'. apply in_map_iff in Hc' as [c [H1 H2]]. subst c'. unfold pr.
+        destruct (N.eqb (c_id c) b); [|now apply W4]. unfold prune. cbn [c_mirror]. apply filter_ok_mirror. now apply W4.
+    + intros c'' Hc'' Hid. cbn [w_srv w_clients] in *.
+      apply in_map_iff in Hc'' as [c' [H1 H2]]. subst c''. rewrite Hpr_id in Hid.
+      apply in_map_iff in H2 as [cu [H3 H4]]. subst c'. rewrite deliver_id in Hid.
+      apply in_map_iff in H4 as [c [H5 H6]]. subst cu. rewrite Hupd_id in Hid.
+      unfold pr. rewrite deliver_id, Hupd_id.
+      destruct (N.eqb (c_id c) b) eqn:Eb.
+      * (* the observer's own command: it must be its unsubscribe *)
+        apply N.eqb_eq in Eb. assert (Ebo : b = o) by congruence.
+        destruct (Hclean Ebo) as [_ [Hpl|[subs Hun]]].
+        { rewrite (plain_no_unsub c0 empty_matcher Hpl) in Hflag. discriminate. }
+        subst c0. destruct (Hhas1 c H6) as [ss1 [Hss1 Hsub1]].
+        destruct (Hhas c H6) as [ss0 [Hss0 Hsub0]].
+        unfold prune, deliver. rewrite Hupd_id, Hss1. cbn [c_mirror c_subs c_id]. rewrite Hupd_mir, Hsub1.
+        rewrite Hid in Hss0, Hss1. unfold sv1, hd in *. rewrite Ebo in *.
+        apply (unsub_world_J B (c_mirror c) (w_srv w) o ss0 subs); auto;
+          try (cbn [cmd_budget] in HB; rewrite Nat.add_0_r in HB; exact HB); try (apply HJ; auto).
+      * (* somebody else's client is pruned, not this one *)
+        apply N.eqb_neq in Eb.
+        assert (Hne : b = o -> cmd_plain c0 = true) by (intros E; congruence).
+        destruct (HJ1 Hne c H6 Hid) as [[ss Hss] HJc].
+        unfold deliver. rewrite Hupd_id, Hid, Hss. cbn [c_mirror]. rewrite Hupd_mir. now apply deliver_J.
+  - split; [exact HW1|].
+    apply finish_wJ; auto. intros c' Hc' Hid. apply in_map_iff in Hc' as [c [H1 H2]]. subst c'.
+    rewrite Hupd_id in Hid. rewrite Hupd_mir. apply HJ1; auto.
+    intros E. destruct (Hclean E) as [_ [Hpl|[subs Hun]]]; auto. subst c0. cbn in Hflag. discriminate.
+Qed.
+
+
+(* ------------------------------------------------------------------ histories *)
+
+Lemma world_step_ok : forall B w ev o, small (B + ev_budget ev) -> winv B w -> wJ w o ->
+  wf_event (w_srv w) ev -> ev_ok ev -> ev_clean o ev ->
+  winv (B + ev_budget ev) (world_step fx w ev) /\ wJ (world_step fx w ev) o.
+Proof.
+  intros B w [s host nm|s|b c] o HB HW HJ Hwf Hok Hcl; cbn [ev_budget] in *; try rewrite Nat.add_0_r in *.
+  - now apply world_attach.
+  - now apply world_detach.
+  - now apply world_cmd.
+Qed.
+
+(* the history condition of refcount_inv, read along the world's run (delivery does not touch what it looks at) *)
+Fixpoint wf_wrun (w : world) (evs : list event) : Prop :=
+  match evs with
+  | [] => True
+  | ev :: r => wf_event (w_srv w) ev /\ wf_wrun (world_step fx w ev) r
+  end.
+
+Theorem world_run_ok : forall evs B w o, small (B + run_budget evs) -> winv B w -> wJ w o ->
+  wf_wrun w evs -> Forall ev_ok evs -> Forall (ev_clean o) evs ->
+  winv (B + run_budget evs) (world_run fx evs w) /\ wJ (world_run fx evs w) o.
+Proof.
+  induction evs as [|ev evs IH]; intros B w o HB HW HJ Hwf Hok Hcl; cbn [world_run fold_left run_budget] in *.
+  - rewrite Nat.add_0_r. auto.
+  - destruct Hwf as [Hw1 Hw2]. inversion Hok as [|? ? Hok1 Hok2]; subst. inversion Hcl as [|? ? Hcl1 Hcl2]; subst.
+    destruct (world_step_ok B w ev o) as [HW1 HJ1]; auto.
+    { eapply small_le; [|exact HB]. lia. }
+    rewrite Nat.add_assoc. apply IH; auto. now rewrite <- Nat.add_assoc.
+Qed.
+
+Lemma empty_winv : winv 0 empty_world.
+Proof.
+  constructor; cbn.
+  - apply empty_inv.
+  - split; [reflexivity|intros ss []].
+  - intros c [].
+  - intros c [].
+Qed.
+
+(* mirror_converges_partial.  For every finite history of loud commands (no quiet flag anywhere, batches nested less than
+   the server's limit) by any number of sessions that come and go, and every session o that sends no explicit GETDATA,
+   batches no unsubscribe, and whose SUBSCRIBE: field lists are well formed: at the quiescent point after the history the
+   client of o holds, at every path that is not in its own subtree, exactly what its subscriptions (paths and filters)
+   select of the true tree -- the node's current payload if some subscription accepts it, nothing otherwise. *)
+Theorem mirror_converges_partial : forall evs o,
+  wf_wrun empty_world evs -> Forall ev_ok evs -> Forall (ev_clean o) evs -> small (run_budget evs) ->
+  forall c ss, In c (w_clients (world_run fx evs empty_world)) -> c_id c = o ->
+  get_session (w_srv (world_run fx evs empty_world)) o = Some ss ->
+  forall q, own_node ss q = false ->
+  mirror_get (c_mirror c) q = expected (sv_tree (w_srv (world_run fx evs empty_world))) ss q.
+Proof.
+  intros evs o Hwf Hok Hcl Hsm c ss Hc Hid Hss q Hown.
+  destruct (world_run_ok evs 0 empty_world o Hsm empty_winv) as [HW HJ]; auto.
+  { intros c0 []. }
+  cbn [Nat.add] in HW. destruct HW as [_ Hq _ _].
+  pose proof (HJ c Hc Hid ss Hss q Hown) as H.
+  assert (Hin : In ss (sv_sessions (w_srv (world_run fx evs empty_world)))) by (apply find_session_some in Hss; tauto).
+  destruct (proj2 Hq ss Hin) as [Hnp Hout].
+  rewrite (V_settled (c_mirror c) _ o ss q Hss Hnp), Hout in H. cbn [apply_all fold_left] in H. now inversion H.
 Qed.
 
 End WorldProofs.
